@@ -371,7 +371,7 @@ Variable callf : Z -> list value -> eres (option value).
 Variable env : cenv.
 Variable fn : vfunc.
 Variable C : code.
-Hypothesis Hfetch : forall pc, vf_fetch fn pc = instr_at C pc.
+Hypothesis Hfetch : forall pc i, instr_at C pc = Some i -> vf_fetch fn pc = Some i.
 Variables (B : list value) (IB : list Z) (top itop : Z) (K : list (frame * opkind)).
 Hypothesis Hcall : call_ok cfg funcs nat_fun callf.
 Variable FL : list Z.
